@@ -344,6 +344,11 @@ func (c *Client) Scan(ctx context.Context, startKey []byte, limit uint32, versio
 			}
 			continue
 		}
+		// A scan that met a lock stops there and says so in its Error: the keys behind the
+		// lock are missing from Kvs, so the result must not pass for the region's content.
+		if keyErr := resp.GetError(); keyErr != nil {
+			return nil, fmt.Errorf("client: scan key error: %v", keyErr)
+		}
 		kvs := resp.GetKvs()
 		collected = append(collected, kvs...)
 		if len(kvs) == 0 {
